@@ -291,17 +291,25 @@ func (w *World) Method(n *types.Named, meth string) *ssa.Function {
 	if n == nil {
 		return nil
 	}
-	for _, t := range []types.Type{types.NewPointer(n), n} {
+	// value method set first: a value-receiver method is found there as declared;
+	// through the pointer type it would be a synthetic wrapper without the body.
+	var synthetic *ssa.Function
+	for _, t := range []types.Type{n, types.NewPointer(n)} {
 		ms := w.Prog.MethodSets.MethodSet(t)
 		for i := 0; i < ms.Len(); i++ {
 			if ms.At(i).Obj().Name() == meth {
 				if f := w.Prog.MethodValue(ms.At(i)); f != nil {
-					return f
+					if f.Synthetic == "" {
+						return f
+					}
+					if synthetic == nil {
+						synthetic = f
+					}
 				}
 			}
 		}
 	}
-	return nil
+	return synthetic
 }
 
 // SrcFuncs returns every source-level function (incl. methods and anonymous
